@@ -54,6 +54,10 @@ def hitsound_copy(osu_src: OsuMap, osu_tgt: OsuMap) -> OsuMap:
     # We'll just get the target data then export it again
     df = pd.concat([i.df for i in osu_tgt.notes], sort=False)
     df = df.sort_values("offset").reset_index(drop=True)
+    # Start from a silent target: reset_samples() below acts on the copy's
+    # note items only, it does not reach this working frame.
+    df[["hitsound_set", "sample_set", "addition_set", "custom_set"]] = 0
+    df["hitsound_file"] = ""
     df_to_offsets = df["offset"]
 
     osu_tgt = deepcopy(osu_tgt)
